@@ -362,6 +362,10 @@ fn exhaustive(ctx: &Ctx, emit: Emit) -> String {
     "one plusz/timesz constraint, each operand a literal / bound before / bound after / never bound, values in -2..=2, both orders of later bindings".to_string()
 }
 
+pub fn run_family_pub(bytes: &[u8], ctx: &Ctx) -> CaseInfo {
+    run_family(bytes, ctx)
+}
+
 pub fn def() -> PropertyDef {
     PropertyDef {
         id: "C19",
